@@ -135,14 +135,30 @@ Definition F_POLL_EOS := bs "poll.eos"%string.
 Definition F_CALLS := bs "calls"%string.
 Definition F_SHAPE := bs "shape"%string.
 
-Fixpoint cmp_polls (idx : N) (m i : list val) : list val :=
+(* The size hint and the end-of-stream flag are functions of how much has been delivered: they are
+   compared wherever model and implementation have delivered the same number of bytes (dm, di) and
+   reported the same kind of result -- at every poll when the framing agrees, at the common cut
+   points when it does not. *)
+Definition data_len (r : val) : N := match r with VB d => lenN d | _ => 0 end.
+Definition same_kind (a b : val) : bool :=
+  match a, b with
+  | VB _, VB _ => true
+  | VN x, VN y => x =? y
+  | VL _, VL _ => true
+  | _, _ => false
+  end.
+Fixpoint cmp_polls (idx dm di : N) (m i : list val) : list val :=
   match m, i with
   | [], [] => []
   | VL [mr; mh; me] :: m', VL [ir; ih; ie] :: i' =>
+      let dm' := dm + data_len mr in
+      let di' := di + data_len ir in
       let f := cmp_field F_POLL_RES (VL [VN idx; mr]) (VL [VN idx; ir])
-               ++ cmp_field F_POLL_HINT (VL [VN idx; mh]) (VL [VN idx; ih])
-               ++ cmp_field F_POLL_EOS (VL [VN idx; me]) (VL [VN idx; ie]) in
-      f ++ cmp_polls (idx + 1) m' i'                (* keep going: a later field may be the constrained one *)
+               ++ (if (dm' =? di') && same_kind mr ir then
+                     cmp_field F_POLL_HINT (VL [VN idx; mh]) (VL [VN idx; ih])
+                     ++ cmp_field F_POLL_EOS (VL [VN idx; me]) (VL [VN idx; ie])
+                   else []) in
+      f ++ cmp_polls (idx + 1) dm' di' m' i'        (* keep going: a later field may be the constrained one *)
   | _, _ => [finding K_DIVERGE F_POLLS (VL m) (VL i)]
   end.
 
@@ -223,7 +239,7 @@ Definition cmp_obs (model impl : val) (mx : list val) : list val :=
       cmp_field F_STATUS ms is_
       ++ (if val_eqb ms is_ then cmp_hdrs mh ih else [])     (* headers of different statuses are not comparable *)
       ++ cmp_field F_HINT0 mh0 ih0 ++ cmp_field F_EOS0 me0 ie0
-      ++ firstn 12 (cmp_polls 0 mp ip) ++ cmp_field F_CALLS mc ic
+      ++ firstn 12 (cmp_polls 0 0 0 mp ip) ++ cmp_field F_CALLS mc ic
       ++ cmp_derived ms is_ mh ih mx ip mc ic
   | _, _ => cmp_field F_SHAPE model impl
   end.
